@@ -142,6 +142,13 @@ fixed("C09-default-namespace-undeclared", "C09", "0dfa50f",
       "xmlns=\"\" left a namespace node with empty prefix and empty URI on the element and its descendants",
       witness="known/C09-default-namespace-undeclared.json")
 
+fixed("C19-unmarshal-target-panics", "C19", "bbc43b3",
+      "Unmarshal panicked on nil, nil-pointer, pointer-to-nil-pointer and non-pointer struct targets",
+      witness="known/C19-unmarshal-target-panics.json")
+fixed("C20-m-no-namespace-child", "C20", "9d67732",
+      "-m printed an element without a namespace inside a namespaced element without xmlns=\"\", so the record parsed back into the parent's namespace",
+      witness="known/C20-m-no-namespace-child.json")
+
 opened("C06-round-negative-tie", "C06",
        "round() rounds negative ties away from zero (round(-1.5) = -2, XPath 1.0: -1); the repository's own "
        "TestFunctionRound pins this value, so it cannot be repaired without editing the suite; substring() bounds share the helper",
